@@ -69,6 +69,7 @@ def textbook_pcg(A, P, b, x0, kmax, dtype):
     p = z.copy()
     rz = np.real(np.vdot(r, z))
     out = [x.copy()]
+    hist = [float(rz)]
     dead = False
     for _ in range(kmax):
         if not dead:
@@ -85,9 +86,11 @@ def textbook_pcg(A, P, b, x0, kmax, dtype):
                 if not (rz > 0):
                     dead = True
                     out.append(x.copy())
+                    hist.append(float("nan"))
                     continue
                 beta = rznew / rz
                 p = z + beta * p
                 rz = rznew
         out.append(x.copy())
-    return out
+        hist.append(float(rz) if not dead else float("nan"))
+    return out, hist
